@@ -159,6 +159,15 @@ def date_spellings():
     for lay in layouts:
         for z in zones:
             yield (lay % z).strip().encode('ascii')
+    # finer and coarser resolutions than the canonical form has: fractional seconds, no seconds, no time, a
+    # leap second, 24:00, two-digit and five-digit years
+    for t in ('07:28:00.5', '07:28:00.000001', '07:28:00,5', '07:28', '07', '', '23:59:60', '24:00:00', '7:28:00',
+              '07:28:00 AM', '07:28:00 PM'):
+        for z in ('GMT', '+0100', ''):
+            yield ('Wed, 21 Oct 2015 %s %s' % (t, z)).strip().encode('ascii')
+            yield ('2015-10-21T%s%s' % (t, {'GMT': 'Z', '': ''}.get(z, z))).strip().encode('ascii')
+    for y in ('15', '69', '70', '99', '00', '0015', '10000', '9999', '0001'):
+        yield ('Wed, 21 Oct %s 07:28:00 GMT' % y).encode('ascii')
 
 
 def txt_partitions():
